@@ -39,14 +39,12 @@ impl ActuationProvider for RecProvider {
 
 pub fn build_perms(scope: &str, expires: Option<SystemTime>) -> Option<Permissions> {
     // validity is decided by the real scope parser
-    Permissions::try_from(Claims {
-        sub: "s".into(),
-        iss: "i".into(),
-        aud: vec!["kuksa.val".into()],
-        iat: 0,
-        exp: 4102444800,
-        scope: scope.to_string(),
-    })
+    // built through serde so that the harness does not depend on the exact field set of `Claims`
+    let claims: Claims = serde_json::from_value(serde_json::json!({
+        "sub": "s", "iss": "i", "aud": ["kuksa.val"], "iat": 0, "exp": 4102444800u64, "scope": scope,
+    }))
+    .ok()?;
+    Permissions::try_from(claims)
     .ok()?;
     // the same construction as TryFrom<Claims>, with a sub-second expiry instant
     let mut b = PermissionBuilder::new();
